@@ -19,6 +19,8 @@ exactly one of {driver, one worker} runs at any time (the *baton*).  A worker ha
   end     emit ``End`` after an in-method close
   hook1   emit ``CloseStart``  (first statement of ``state.close()``)
   hook2   emit ``CloseEnd``    (last statement of ``state.close()``)
+  mklock  construct a ``threading.RLock`` / ``Lock`` from a scenario thread (never happens in the unchanged
+          source, where the entry lock is created by ``open``; a lazily created lock is driven through this point)
 
 A lock that is held by another thread when its waiter is scheduled makes that step a stutter (the
 waiter stays parked at the same point) -- the same convention as coq/model/M_StickySched.v, so the
@@ -48,7 +50,7 @@ TOKEN_KEY = b"c26-token-key-32-bytes-long!!!!!"
 K_REQ, K_REQ_CLOSE, K_DEL, K_REAP, K_SHUT = 0, 1, 2, 3, 4
 KIND_NAMES = {K_REQ: "request", K_REQ_CLOSE: "request+close_session", K_DEL: "DELETE", K_REAP: "reaper", K_SHUT: "shutdown"}
 # labels (same numbering as M_StickySched.label_code)
-LABELS = ["time", "reglock", "elock", "begin", "work", "end", "hook1", "hook2", "done"]
+LABELS = ["time", "reglock", "elock", "begin", "work", "end", "hook1", "hook2", "done", "mklock"]
 LABEL_CODE = {n: i for i, n in enumerate(LABELS)}
 # events (same numbering as M_StickySched.ev_code)
 EVENTS = ["Begin", "End", "Detach", "CloseStart", "CloseEnd"]
@@ -259,12 +261,14 @@ class _ThreadingShim:
         self._s = sched
 
     def Lock(self) -> SchedLock:  # noqa: N802
+        self._s.yield_("mklock")
         lk = SchedLock(self._s)
         if self._s.reglock is None:
             self._s.reglock = lk  # first Lock() of an app build is the registry's (checked by the driver)
         return lk
 
     def RLock(self) -> SchedRLock:  # noqa: N802
+        self._s.yield_("mklock")  # transparent for non-scenario code (open()); a scheduling point otherwise
         return SchedRLock(self._s)
 
     def Event(self) -> SchedEvent:  # noqa: N802
@@ -427,9 +431,12 @@ class Scenario:
             self.token = r.headers.get(SESSION_HEADER)
             if r.status_code != 200 or not self.token or len(self.registry) != 1:
                 raise HarnessError(f"could not open the session: {r.status_code} {r.content[:200]!r}")
-            if len(self.s.elocks) != 1:
+            # the entry lock(s): normally exactly one, created by open(); a tree that creates it elsewhere (lazily,
+            # per access, ...) is still driven -- every RLock built through the shim is tracked in s.elocks
+            entry = next(iter(self.registry._entries.values()))
+            probe = getattr(entry, "__dict__", {}).get("lock")
+            if probe is not None and not isinstance(probe, SchedRLock):
                 raise HarnessError("the entry lock is not the interposed RLock")
-            self.elock = self.s.elocks[0]
             self.s.workers = [_Worker(i, k) for i, k in enumerate(pool)]
             for w in self.s.workers:
                 self.s.start(w, self._body_of(w.kind))
@@ -494,7 +501,8 @@ class Scenario:
         s = self.s
         assert s.reglock is not None
         present = 1 if len(self.registry._entries) else 0  # read without the lock: only the driver runs
-        return [s.now, present, s.reglock.owner_code(), self.elock.owner_code(), len(s.events)] + [LABEL_CODE.get(w.label, 99) for w in s.workers]
+        held = [lk.owner_code() for lk in s.elocks if lk.owner is not None]
+        return [s.now, present, s.reglock.owner_code(), held[0] if held else 0, len(s.events)] + [LABEL_CODE.get(w.label, 99) for w in s.workers]
 
     def run(self, schedule: list[int], drain: bool = True) -> RunResult:
         res = RunResult(schedule=list(schedule), given=len(schedule))
